@@ -50,7 +50,8 @@ def run_case(case):
         return r.bad(f'C12/compile-raised/{type(e).__name__}', f'{e!r} :: {text}')
     ex = L.expand(sch)
     words = G.name_alphabet(sch)
-    names = G.all_names(words, 4)
+    longest = max((len(ch.items) for chains in ex.values() for ch in chains), default=0)
+    names = G.all_names(words, min(4, longest))
     matching = [n for n in names if L.matches_any(sch, n, fns, ex)]
     others = [n for i, n in enumerate(names) if i % 97 == case.get('salt', 0) % 97][:6]
     pool = matching[:64] + others
@@ -105,11 +106,15 @@ def _show(name):
     return '/' + '/'.join(bytes(c).hex() for c in name)
 
 
-def _case():
-    return st.fixed_dictionaries({'schema': G.schema(signing_bias=True, max_rules=6), 'style': st.integers(0, 5),
+def _case(mode='base'):
+    return st.fixed_dictionaries({'schema': G.schema(signing_bias=True, max_rules=6, mode=mode), 'style': st.integers(0, 5),
                                   'salt': st.integers(0, 96)})
 
 
 SUBCHECKS = {
-    'schemas': SubCheck(run_case, strategy=lambda tier: _case(), examples={'quick': 400, 'thorough': 12000}),
+    'schemas': SubCheck(run_case, strategy=lambda tier: _case('base'), examples={'quick': 300, 'thorough': 8000}),
+    'schemas-family': SubCheck(run_case, strategy=lambda tier: _case('family'), examples={'quick': 250, 'thorough': 6000},
+                               note='redefinitions with identical name pattern but other signers, sibling rules sharing a prefix'),
+    'schemas-many-patterns': SubCheck(run_case, strategy=lambda tier: _case('many'), examples={'quick': 150, 'thorough': 4000},
+                                      note='14 pattern names: pattern numbers reach two digits'),
 }
